@@ -1,1 +1,253 @@
-fn main() {}
+//! C07 driver: build a source archive of the class TLC chose, call `rebuild_archive` with the
+//! options TLC chose, and record what came out: the summary, the target's readable names and
+//! contents (one TRead per listed source name), its listing and the result of `compare_archives`.
+//! Observations only; Trace_Rebuild.tla decides.
+use std::path::Path;
+use wow_mpq::compression::flags as cflags;
+use wow_mpq::{
+    compare_archives, rebuild_archive, Archive, ArchiveBuilder, AttributesOption, Error, FormatVersion, ListfileOption,
+    RebuildOptions,
+};
+use wverif_common::*;
+
+fn version(v: i64) -> FormatVersion {
+    match v {
+        1 => FormatVersion::V1,
+        2 => FormatVersion::V2,
+        3 => FormatVersion::V3,
+        _ => FormatVersion::V4,
+    }
+}
+fn vernum(v: FormatVersion) -> i64 {
+    v as i64 + 1
+}
+
+fn classify<T>(r: &Result<T, Error>) -> String {
+    match r {
+        Ok(_) => "ok".into(),
+        Err(Error::FileNotFound(_)) => "notfound".into(),
+        Err(e) => format!("err:{}", variant_name(e)),
+    }
+}
+
+// Panic messages per thread (the shared hook of wverif_common keeps one global slot, which races when
+// several worker threads panic at the same time; signatures must be deterministic).
+static PANICS: std::sync::Mutex<Option<std::collections::HashMap<std::thread::ThreadId, String>>> = std::sync::Mutex::new(None);
+fn install_hook() {
+    std::panic::set_hook(Box::new(|info| {
+        let file = info.location().map(|l| l.file().to_string()).unwrap_or_default();
+        let file = file.rsplit_once("/src/").map(|(a, b)| format!("{}/src/{}", a.rsplit('/').next().unwrap_or(""), b)).unwrap_or(file);
+        let msg = if let Some(s) = info.payload().downcast_ref::<&str>() {
+            s.to_string()
+        } else if let Some(s) = info.payload().downcast_ref::<String>() {
+            s.clone()
+        } else {
+            "?".into()
+        };
+        let mut g = PANICS.lock().unwrap();
+        g.get_or_insert_with(Default::default).insert(std::thread::current().id(), format!("{file}: {}", normalise_digits(&msg)));
+    }));
+}
+fn guard<T>(f: impl FnOnce() -> T) -> Outcome<T> {
+    match std::panic::catch_unwind(std::panic::AssertUnwindSafe(f)) {
+        Ok(v) => Outcome::Done(v),
+        Err(_) => {
+            let m = PANICS.lock().unwrap().as_mut().and_then(|m| m.remove(&std::thread::current().id())).unwrap_or_else(|| "?".into());
+            Outcome::Panic(m)
+        }
+    }
+}
+
+struct SrcFile {
+    name: &'static str,
+    data: Vec<u8>,
+    comp: u8,
+    enc: bool,
+    fix: bool,
+}
+
+fn source_files(seed: u64, case: &str, with_empty: bool) -> Vec<SrcFile> {
+    let mut rng = Rng::derive(seed, &format!("{case}:src"));
+    let mut v = vec![
+        SrcFile { name: "data\\plain.txt", data: gen_content("text", rng.range(200, 600) as usize, &mut rng), comp: cflags::ZLIB, enc: false, fix: false },
+        SrcFile { name: "data\\raw.bin", data: gen_content("random", rng.range(100, 400) as usize, &mut rng), comp: 0, enc: false, fix: false },
+        SrcFile { name: "data\\secret.dat", data: gen_content("text", rng.range(200, 600) as usize, &mut rng), comp: cflags::ZLIB, enc: true, fix: false },
+        SrcFile { name: "data\\fixkey.dat", data: gen_content("mixed", rng.range(200, 600) as usize, &mut rng), comp: cflags::ZLIB, enc: true, fix: true },
+        // larger than a sector (16 KiB sectors in the source): several compressed sectors
+        SrcFile { name: "world\\big.adt", data: gen_content("text", rng.range(36_000, 44_000) as usize, &mut rng), comp: cflags::ZLIB, enc: false, fix: false },
+    ];
+    if with_empty {
+        v.push(SrcFile { name: "data\\empty.bin", data: vec![], comp: cflags::ZLIB, enc: false, fix: false });
+    }
+    v
+}
+
+fn main() {
+    let a = args();
+    install_hook();
+    let cases = read_cases(&a.cases);
+    let trace = Trace::create(&a.trace);
+    let seed = seed();
+    let scratch = Scratch::new("c07");
+    // traces are written in case order whatever the completion order of the worker threads
+    let blocks: std::sync::Mutex<Vec<Option<Vec<Value>>>> = std::sync::Mutex::new(vec![None; cases.len()]);
+    par_for(cases.len(), ncpu().min(8), |ci| {
+        let c = &cases[ci];
+        let src = &c["src"];
+        let o = &c["opts"];
+        let case = format!("r{ci}");
+        let mut evs: Vec<Value> = vec![];
+        let spath = scratch.file(&format!("{case}-src.mpq"));
+        let tpath = scratch.file(&format!("{case}-dst.mpq"));
+        let files = source_files(seed, &case, gb(src, "empty"));
+        // ---- source archive
+        let mut b = ArchiveBuilder::new()
+            .version(version(gi(src, "ver")))
+            .listfile_option(ListfileOption::Generate)
+            .attributes_option(if gb(src, "at") { AttributesOption::GenerateCrc32 } else { AttributesOption::None });
+        for f in &files {
+            b = if f.enc && f.fix {
+                b.add_file_data_with_encryption(f.data.clone(), f.name, f.comp, true, 0)
+            } else {
+                b.add_file_data_with_options(f.data.clone(), f.name, f.comp, f.enc, 0)
+            };
+        }
+        if let Err(e) = b.build(&spath) {
+            tool_error(&format!("case {case}: cannot build the source archive: {e:?}"));
+        }
+        let mut sa = Archive::open(&spath).unwrap_or_else(|e| tool_error(&format!("case {case}: source does not open: {e:?}")));
+        let listed: Vec<String> = sa.list().unwrap_or_else(|e| tool_error(&format!("case {case}: source list: {e:?}"))).into_iter().map(|e| e.name).collect();
+        let hetbet = sa.het_table().is_some() && sa.bet_table().is_some();
+        // tokens of what the source archive itself reads for every listed name
+        let mut toks = Map::new();
+        let mut enc: Vec<String> = vec![];
+        for n in &listed {
+            match sa.read_file(n) {
+                Ok(d) => {
+                    toks.insert(n.clone(), json!(tok(&d)));
+                }
+                Err(e) => tool_error(&format!("case {case}: source does not read back {n}: {e:?} (C01 territory)")),
+            }
+            if let Ok(Some(fi)) = sa.find_file(n) {
+                if fi.is_encrypted() {
+                    enc.push(n.clone());
+                }
+            }
+        }
+        for f in &files {
+            if toks.get(f.name).and_then(|t| t.as_str()) != Some(tok(&f.data).as_str()) {
+                tool_error(&format!("case {case}: source content of {} differs from what was added (C01 territory)", f.name));
+            }
+        }
+        drop(sa);
+        let sig: Vec<String> = listed.iter().filter(|n| n.as_str() == "(signature)" || n.as_str() == "(strong signature)").cloned().collect();
+        evs.push(json!({"ev":"Reset","case":case,"ver":gi(src,"ver"),"at":gb(src,"at"),"empty":gb(src,"empty"),"hetbet":hetbet,
+            "listed":listed,"tok":Value::Object(toks),"enc":enc,"sig":sig}));
+        // ---- rebuild
+        let target = gi(o, "target");
+        let comp = gs(o, "comp");
+        let bs = gi(o, "bs");
+        let opts = RebuildOptions {
+            preserve_format: true,
+            target_format: if target == 0 { None } else { Some(version(target)) },
+            preserve_order: true,
+            skip_encrypted: gb(o, "skipEnc"),
+            skip_signatures: gb(o, "skipSig"),
+            verify: gb(o, "verify"),
+            override_compression: match comp {
+                "none" => Some(0),
+                "zlib" => Some(cflags::ZLIB),
+                "bzip2" => Some(cflags::BZIP2),
+                _ => None,
+            },
+            override_block_size: if bs < 0 { None } else { Some(bs as u16) },
+            list_only: gb(o, "listOnly"),
+        };
+        let r = guard(|| rebuild_archive(&spath, &tpath, opts, None));
+        let texists = tpath.exists();
+        let mut ev = json!({"ev":"Rebuild","case":case,"opts":o.clone(),"res":"","msg":"","source":-1,"extracted":-1,"skipped":-1,"verified":false,"tformat":0,"texists":texists,"tver":0});
+        match &r {
+            Outcome::Done(Ok(s)) => {
+                ev["res"] = json!("ok");
+                ev["source"] = json!(s.source_files as i64);
+                ev["extracted"] = json!(s.extracted_files as i64);
+                // a wrapped usize does not fit TLC's integers: clamp (any value >= 2^30 is wrong anyway)
+                ev["skipped"] = json!((s.skipped_files.min(1 << 30)) as i64);
+                ev["verified"] = json!(s.verified);
+                ev["tformat"] = json!(vernum(s.target_format));
+            }
+            Outcome::Done(e) => ev["res"] = json!(classify(e)),
+            Outcome::Panic(m) => {
+                ev["res"] = json!("panic");
+                ev["msg"] = json!(m);
+            }
+            Outcome::Hang => ev["res"] = json!("hang"),
+        }
+        // ---- what is in the target
+        let ta = if texists { guard(|| Archive::open(&tpath)) } else { Outcome::Done(Err(Error::invalid_format("no target"))) };
+        let mut ta = match ta {
+            Outcome::Done(Ok(t)) => Some(t),
+            _ => None,
+        };
+        if let Some(t) = &ta {
+            ev["tver"] = json!(vernum(t.header().format_version));
+        }
+        evs.push(ev);
+        let src_listed: Vec<String> = evs[0]["listed"].as_array().unwrap().iter().map(|x| x.as_str().unwrap().to_string()).collect();
+        for n in &src_listed {
+            let (res, t) = match ta.as_mut() {
+                None => ("noarchive".to_string(), "none".to_string()),
+                Some(t) => match guard(|| t.read_file(n)) {
+                    Outcome::Done(Ok(d)) => ("ok".to_string(), tok(&d)),
+                    Outcome::Done(e) => (classify(&e), "none".to_string()),
+                    _ => ("panic".to_string(), "none".to_string()),
+                },
+            };
+            evs.push(json!({"ev":"TRead","case":case,"n":n,"res":res,"tok":t}));
+        }
+        let (lres, lnames) = match ta.as_mut() {
+            None => ("noarchive".to_string(), vec![]),
+            Some(t) => match guard(|| t.list()) {
+                Outcome::Done(Ok(l)) => ("ok".to_string(), l.into_iter().map(|e| e.name).collect::<Vec<_>>()),
+                Outcome::Done(Err(e)) => (format!("err:{}", variant_name(&e)), vec![]),
+                _ => ("panic".to_string(), vec![]),
+            },
+        };
+        evs.push(json!({"ev":"TList","case":case,"res":lres,"names":lnames}));
+        drop(ta);
+        let cmp = if texists {
+            let (sp, tp): (std::path::PathBuf, std::path::PathBuf) = (spath.clone(), tpath.clone());
+            guard(move || compare_archives(sp.as_path(), tp.as_path(), true, true, false, true, None))
+        } else {
+            Outcome::Done(Err(Error::invalid_format("no target")))
+        };
+        let mut cev = json!({"ev":"Compare","case":case,"res":"","identical":false,"content_diffs":[],"only_src":[],"only_tgt":[],"size_diffs":0,"msg":""});
+        match cmp {
+            Outcome::Done(Ok(c)) => {
+                cev["res"] = json!("ok");
+                cev["identical"] = json!(c.identical);
+                if let Some(f) = &c.files {
+                    cev["content_diffs"] = json!(f.content_differences);
+                    cev["only_src"] = json!(f.source_only);
+                    cev["only_tgt"] = json!(f.target_only);
+                    cev["size_diffs"] = json!(f.size_differences.len());
+                }
+            }
+            Outcome::Done(Err(e)) => cev["res"] = json!(if texists { format!("err:{}", variant_name(&e)) } else { "noarchive".to_string() }),
+            Outcome::Panic(m) => {
+                cev["res"] = json!("panic");
+                cev["msg"] = json!(m);
+            }
+            Outcome::Hang => cev["res"] = json!("hang"),
+        }
+        evs.push(cev);
+        let _ = std::fs::remove_file(&spath);
+        let _ = std::fs::remove_file(&tpath);
+        blocks.lock().unwrap()[ci] = Some(evs);
+    });
+    for b in blocks.into_inner().unwrap().into_iter().flatten() {
+        trace.block(b);
+    }
+    trace.flush();
+    let _ = Path::new(".");
+}
